@@ -482,13 +482,20 @@ func c11locales(r *core.Run) {
 		{"C", "", "", "US-ASCII"}, {"POSIX", "", "", "US-ASCII"}, {"", "", "C", "US-ASCII"}, {"en_US", "", "", "UTF-8"}, {"", "", "", "UTF-8"},
 		{"ru_RU.KOI8-R", "", "", "KOI8-R"}, {"zh_CN.GBK", "", "", "GBK"}, {"", "ja_JP.EUC-JP", "en_US.UTF-8", "EUC-JP"},
 		{"de_DE.ISO8859-15@euro", "", "", "ISO8859-15"}, {"", "", "ko_KR.EUC-KR", "EUC-KR"}, {"zh_TW.Big5", "ja_JP.EUC-JP", "en_US.UTF-8", "Big5"},
+		// "-": the variable is exported but empty, which POSIX treats like an unset one
+		{"-", "ja_JP.EUC-JP", "en_US.UTF-8", "EUC-JP"}, {"-", "-", "ru_RU.KOI8-R", "KOI8-R"}, {"", "-", "el_GR.ISO8859-7", "ISO8859-7"}, {"-", "", "C", "US-ASCII"},
+		// lower-priority variables that contradict the selecting one
+		{"ru_RU.KOI8-R", "en_US.UTF-8", "en_US.UTF-8", "KOI8-R"}, {"en_US.UTF-8", "ru_RU.KOI8-R", "ja_JP.EUC-JP", "UTF-8"}, {"", "zh_CN.GBK", "en_US.UTF-8", "GBK"},
 	}
 	ti := Pristine("xterm-256color")
 	for _, c := range cases {
 		for k, v := range map[string]string{"LC_ALL": c.all, "LC_CTYPE": c.ctype, "LANG": c.lang} {
-			if v == "" {
+			switch v {
+			case "":
 				os.Unsetenv(k)
-			} else {
+			case "-":
+				os.Setenv(k, "")
+			default:
 				os.Setenv(k, v)
 			}
 		}
